@@ -61,13 +61,13 @@ void Action__set_state(struct Action* self, int state)
     /* Action::set_state moves the action between the model's state sets; here it only records the call, globally and
        in two ghost fields of the action (vf_state_calls, vf_state): the started set is NOT modified, i.e. it is assumed
        that removing the finished action does not disturb an iteration whose iterator was advanced beforehand */
-    __CPROVER_assigns(g_set_state_calls, g_set_state_arg, g_set_state_self, self->vf_state_calls, self->vf_state)
+    __CPROVER_assigns(g_set_state_calls, g_set_state_arg, VF_PT(g_set_state_self), self->vf_state_calls, self->vf_state)
     __CPROVER_ensures(g_set_state_calls == __CPROVER_old(g_set_state_calls) + 1 && g_set_state_arg == state &&
                       g_set_state_self == self && self->vf_state_calls == __CPROVER_old(self->vf_state_calls) + 1 &&
                       self->vf_state == state);
 
 void ActionHeap__remove(struct ActionHeap* self, struct Action* action)
-    __CPROVER_requires(self == &g_heap && IS_ACTION(action)) __CPROVER_assigns(g_heap_removed, g_heap_removed_action)
+    __CPROVER_requires(self == &g_heap && IS_ACTION(action)) __CPROVER_assigns(g_heap_removed, VF_PT(g_heap_removed_action))
     __CPROVER_ensures(g_heap_removed == __CPROVER_old(g_heap_removed) + 1 && g_heap_removed_action == action);
 
 /* ---------------- contracts of the units ------------------------------------------------------------------- */
@@ -129,7 +129,7 @@ double Action__get_rate(struct Action* self)
 /* finishing an action: dated now, nothing remains, state handed to set_state */
 void Action__finish(struct Action* self, int state)
     __CPROVER_requires(IS_ACTION(self) && vf_exc == 0 && 0 <= self->vf_state_calls && self->vf_state_calls < 1000000)
-    __CPROVER_assigns(self->finish_time_, self->remains_, g_set_state_calls, g_set_state_arg, g_set_state_self,
+    __CPROVER_assigns(self->finish_time_, self->remains_, g_set_state_calls, g_set_state_arg, VF_PT(g_set_state_self),
                       self->vf_state_calls, self->vf_state)
     __CPROVER_ensures(self->remains_ == 0.0)           /*@ finished_action_has_nothing_left */
     __CPROVER_ensures(self->finish_time_ == g_clock)   /*@ finished_action_is_dated_now */
